@@ -105,6 +105,13 @@ CHECKS = {
         note="Identity of a transaction in the report = the unique id printed on its In-Out row.",
         design="3/C19",
     ),
+    "C20": dict(
+        category="exploration",
+        technique="exhaustive enumeration of year -> content assignments x second asset x row order x language through spreadsheet -> parse_ods -> compute_tax -> the real tax_report_jp plugin in a forked child; .ods read back, cross-sheet formulas compared as text",
+        text="Asset B1: every assignment of the years 2019..2022 to {nothing, buy, sell, transfer with fee} that never over-spends, plus every 3-year (thorough: every 4-year) assignment over a 7-item menu (buy+sell, fee-less transfer, a Dec 31 purchase at -05:00 whose UTC year is the next one); x second asset (none or one of 4 fixed patterns incl. one that starts later than B1) x row order (years first seen in / out of order across the IN / OUT / INTRA tables) x language en / kl. Read-back: exactly one '<asset>_<year>' sheet per asset-year with transactions, each of the year's value-carrying transactions once in time order (month, day, client, type, purchase and sale amounts and yen), one '<year>_Summary' per year with one line per asset whose formulas point into that asset-year sheet and at its closing-balance cells, and every opening balance = the closing-balance cells of the same asset's most recent earlier sheet, or 0.",
+        note="Cells are located through the sheet's own structure (the purchases formula anchors the balance block), not by recomputing RP2's row arithmetic.",
+        design="3/C20",
+    ),
 }
 
 NOT_YET = {
